@@ -115,6 +115,20 @@ class NumpyShim:
     def asfarray(self, obj, **kw):
         return self.asarray(obj)
 
+    def ascontiguousarray(self, obj, dtype=None, **kw):
+        if _has_sym(obj) and (dtype is None or self._dt(dtype) is object):
+            return _np.ascontiguousarray(obj, dtype=object)
+        if dtype is Float64Shim:
+            dtype = _np.float64
+        return _np.ascontiguousarray(obj, dtype=dtype, **kw)
+
+    def asfortranarray(self, obj, dtype=None, **kw):
+        if _has_sym(obj) and (dtype is None or self._dt(dtype) is object):
+            return _np.asfortranarray(obj, dtype=object)
+        if dtype is Float64Shim:
+            dtype = _np.float64
+        return _np.asfortranarray(obj, dtype=dtype, **kw)
+
     def isnan(self, x):
         if _has_sym(x):
             return _np.zeros(_np.shape(x), dtype=bool) if _np.ndim(x) else False
